@@ -1054,6 +1054,22 @@ impl network::simnet::Backend for Net {
 
 /// Remove a real listener (the node "restarts": its port vanishes and may come back).
 impl Net {
+    /// Add a fault rule while the run is in progress (used by content-triggered faults such as
+    /// "slow down the leader of round r"; the trigger is a deterministic function of the tap).
+    pub fn add_rule(&self, rule: Rule) {
+        let mut g = self.inner.lock().unwrap();
+        let t0 = rule.t0_us.max(g.now_us());
+        let is_block = rule.kind == RuleKind::Block;
+        g.cfg.rules.push(rule);
+        let idx = g.cfg.rules.len() - 1;
+        if is_block {
+            g.push_ev(t0, Ev::RuleStart(idx));
+        } else {
+            let label = g.cfg.rules[idx].label.clone();
+            g.count(&label);
+        }
+    }
+
     pub fn drop_listener(&self, node: NodeId, svc: u8) {
         let mut g = self.inner.lock().unwrap();
         if let Some(mut l) = g.listeners.remove(&(node, svc)) {
